@@ -114,6 +114,17 @@ def _groupby(it: Iterable[Any], key: Optional[Callable] = None):
     return [(k, list(g)) for k, g in itertools.groupby(list(it), key)]
 
 
+# builtins called with keyword arguments: (implementation on folded values, accepted keywords)
+_KW_BUILTINS: Dict[str, Any] = {
+    "enumerate": (lambda it, start=0: list(enumerate(it, start)), {"start"}),
+    "zip": (lambda *a, strict=False: list(zip(*a, strict=strict)), {"strict"}),
+    "sum": (lambda it, start=0: sum(it, start), {"start"}),
+    "round": (round, {"ndigits"}),
+    "int": (int, {"base"}),
+    "print": (lambda *a, **k: None, {"file", "end", "sep", "flush"}),
+}
+
+
 class Folder2(Folder):
     def child(self, extra: Dict[str, Any]) -> "Folder2":
         return Folder2(self.repo, self.module, {**self.local, **extra}, self.cls)
@@ -132,6 +143,10 @@ class Folder2(Folder):
             if not callable(kw.get("key")):
                 raise NotConst("key is not a function")
             return {"sorted": sorted, "min": min, "max": max}[f.id](*self._elts(n.args), **kw)
+        if isinstance(f, ast.Name) and n.keywords and f.id in _KW_BUILTINS and f.id not in self.local:
+            kw = self._kw(n)
+            if set(kw) <= _KW_BUILTINS[f.id][1]:
+                return _KW_BUILTINS[f.id][0](*self._elts(n.args), **kw)
         if isinstance(f, ast.Name) and f.id == "iter" and len(n.args) == 1 and not n.keywords:
             return iter(list(self.fold(n.args[0])))  # a one-shot iterator over the elements present now
         if isinstance(f, ast.Name) and f.id == "next" and 1 <= len(n.args) <= 2 and not n.keywords and "next" not in self.local:
